@@ -25,3 +25,10 @@ class VariableBoundBoundsMaxPropagator(VariableBoundMaxPropagator):
 #        print("max: " + str(self.other.domain.range_l[-1][1]+self.offset))
         return (self.other.domain.range_l[-1][1]+self.offset)
     
+    def propagate(self):
+        if len(self.other.domain.range_l) == 0:
+            # The other variable has no feasible value. There
+            # is nothing to propagate (the solve will fail)
+            return False
+        return super().propagate()
+    
